@@ -515,7 +515,7 @@ class Exec:
         self._st = st
         if e.kind == 'autodtor':
             st.events.append(('autodtor', None, (e.info['autodtor'], e.info['decl'], e.info.get('type'))))
-            return None
+            return self._scope_exit_dtor(e, st, fr)
         if e.kind in ('tmpdtor', 'memberdtor', 'basedtor', 'deletedtor', 'other'): return None
         n = e.node
         if n is None: return None
@@ -542,7 +542,7 @@ class Exec:
             st.events.append(('throw', n, None)); return ('end', 'throw')
         if k == 'call' and n.callee_in_root and not self.dom.opaque(n):
             return self._inline_call(n, st, fr)
-        if k == 'construct' and n.callee_in_root and not self.dom.opaque(n):
+        if k == 'construct' and (n.callee_in_root or self._local_raii(n.d.get('classfull') or n.d.get('class') or '') is not None) and not (n.copy or n.move) and not self.dom.opaque(n):
             return self._inline_call(n, st, fr)
         if k == 'call':
             clos = self.dom.sync_closures(self, n, st, fr)
@@ -550,6 +550,39 @@ class Exec:
                 return self._call_with_closures(n, clos, st, fr)
         v = self._eval(n, st, fr)
         return None
+
+    def _local_raii(self, ty):
+        """the user-written destructor of class `ty` if the class is a helper local to an implementation file (a scope guard next to the
+        function under analysis); library classes declared in headers have rules of their own and are not followed here"""
+        cache = self.__dict__.setdefault('_dtor_cache', {})
+        if ty not in cache:
+            norm = lambda x: (x or '').replace('(anonymous namespace)::', '')
+            cache[ty] = next((f for f in self.facts.fns if f.d.get('dtor') and norm(ty) in (norm(f.d.get('classfull')), norm(f.d.get('class'))) and f.body is not None and not f.d.get('defaulted')
+                              and f.loc.split(':')[0].endswith(('.cpp', '.cc', '.cxx')) and not f.loc.startswith('witness/') and any(True for _ in f.body.children())), None) if ty else None
+        return cache[ty]
+
+    def _scope_exit_dtor(self, e, st, fr):
+        """a local of a tulz class with a user-written destructor goes out of scope (scope guards, RAII helpers): run the destructor
+        on the object its constructor built.  Only when the local was initialised by an inlined constructor call of that class;
+        anything else is left to the domain (the 'autodtor' event)."""
+        dt = self._local_raii((e.info.get('type') or '').replace('const ', '').strip())
+        if dt is None or fr.depth + 1 > self.dom.max_depth: return None
+        cons = None
+        for x in fr.fn.nodes():
+            if x.k == 'decl':
+                for v in x.vars:
+                    if v['decl'] == e.info['decl'] and v.get('init') and v['init'] in x.tu.ex:
+                        i = Node(x.tu, v['init'])
+                        while i is not None and i.k in ('cast', 'paren', 'materialize', 'bindtemp'): i = i.n('sub')
+                        if i is not None and i.k == 'construct' and not (i.copy or i.move): cons = i
+        if cons is None or self.dom.opaque(cons): return None
+        sub = Frame(dt, ('tmp', cons.id), fr.depth + 1)
+        st.events.append(('enter', cons, dt.name))
+        live = []; dead = []
+        for st2, sub2, end in self._walk(sub, st):
+            st2.events.append(('leave', cons, dt.name))
+            (dead if end in ('throw', 'noreturn', 'loop') else live).append((st2, dict(fr.vals)) if end not in ('throw', 'noreturn', 'loop') else (st2, dict(fr.vals), end))
+        return ('fork', live, dead)
 
     def _call_with_closures(self, n, clos, st, fr):
         """a std call that synchronously invokes closure arguments (cv.wait predicate, std algorithms): run each closure body
